@@ -43,6 +43,57 @@ def is_single_replacement(child, base, donor_structs):
     return is_single_replacement(cc[diff[0]], bc[diff[0]], donor_structs)
 
 
+def dsge_sequences(fams, seeds):
+    """Dynamic SGE genotypes as they arise in a run -- mapped parents, crossover children (which can hold an EMPTY gene list
+    for a symbol one parent never used), then mutation: the mutant must have the same symbols and gene-list lengths as the
+    genotype it was made from, differ in at most one gene, and leave its parent untouched."""
+    from geneticengine.representations.grammatical_evolution.dynamic_structured_ge import DynamicStructuredGrammaticalEvolutionRepresentation as DSGE
+
+    n = 0
+    worst = None
+    for name, classes, start, _desc in fams:
+        try:
+            g = extract_grammar(classes, start)
+            lo = g.get_min_tree_depth()
+            if lo >= 1000000:
+                continue
+            rep = DSGE(g, lo + 2)
+        except Exception:
+            continue
+        for sd in seeds:
+            r = NativeRandomSource(sd)
+            try:
+                p1, p2 = rep.create_genotype(r), rep.create_genotype(r)
+                rep.genotype_to_phenotype(p1)
+                rep.genotype_to_phenotype(p2)
+                kids = list(rep.crossover(r, p1, p2))
+            except Exception:
+                continue
+            for kid in kids:
+                for _ in range(6):
+                    before = {k: list(v) for k, v in kid.dna.items()}
+                    try:
+                        m = rep.mutate(r, kid)
+                    except Exception:
+                        break
+                    n += 1
+                    after_parent = {k: list(v) for k, v in kid.dna.items()}
+                    shape_b = {k: len(v) for k, v in before.items()}
+                    shape_m = {k: len(v) for k, v in m.dna.items()}
+                    changed = sum(1 for k in before for a, b in zip(before[k], m.dna.get(k, [])) if a != b)
+                    msg = None
+                    if after_parent != before:
+                        msg = "the genotype it was given changed"
+                    elif shape_m != shape_b:
+                        diff = {getattr(k, "__name__", str(k)): (shape_b.get(k), shape_m.get(k)) for k in set(shape_b) | set(shape_m) if shape_b.get(k) != shape_m.get(k)}
+                        msg = f"gene-list lengths changed (symbol: before, after) {diff}"
+                    elif changed > 1:
+                        msg = f"{changed} genes differ"
+                    if msg and (worst is None or len(msg) < len(worst[1])):
+                        worst = (name, f"dSGE mutate on a crossover child ({name}, seed {sd}): {msg}")
+    return n, worst
+
+
 def run(tier: str, seed: int) -> dict:
     fams = make_family()
     seeds = range(seed, seed + (12 if tier == "quick" else 80))
@@ -77,13 +128,17 @@ def run(tier: str, seed: int) -> dict:
                         size = len(repr(base)) + len(repr(donor))
                         if worst is None or size < worst[0]:
                             worst = (size, f"{name}, max_depth={d}, seed={sd}: {tag} child {child!r} is not parent {base!r} with one subtree replaced by a subtree of {donor!r}")
+    n_dsge, worst_dsge = dsge_sequences(fams, list(seeds)[: (6 if tier == "quick" else 30)])
+    evaluations += n_dsge
     violations = []
+    if worst_dsge is not None:
+        violations.append(violation("rt:C06:dsge-mutation-not-local-on-crossover-children", worst_dsge[1][:600], unit="DynamicStructuredGrammaticalEvolutionRepresentation.mutate"))
     if worst is not None:
         violations.append(violation("rt:C06:tree-crossover-child-not-parental-material", worst[1][:600], unit="treebased.tree_crossover"))
     return result(
         evaluations,
         len(distinct),
-        f"tree crossover on {len(fams)} family grammars x max_depth {list(depths)} x {len(list(seeds))} seeds; oracle: child equals one parent with a single node position replaced by a same-typed subtree of the other parent (structural comparison)",
+        f"tree crossover on {len(fams)} family grammars x max_depth {list(depths)} x {len(list(seeds))} seeds; oracle: child equals one parent with a single node position replaced by a same-typed subtree of the other parent (structural comparison); dSGE: map two parents, cross over, mutate each child 6x -- same symbols and gene-list lengths, at most one gene changed, input untouched ({n_dsge} mutations)",
         samples,
         violations,
     )
